@@ -36,14 +36,60 @@ class NonZero:
                 continue
             if a is v:
                 return True
-            if a.is_inst and v.is_inst and a.op == "load" and v.op == "load" and strip_casts(a.ops[0]) is strip_casts(v.ops[0]):
-                return True
+            if a.is_inst and v.is_inst and a.op == "load" and v.op == "load":
+                pa, pv = strip_casts(a.ops[0]), strip_casts(v.ops[0])
+                if pa is pv:
+                    return True
+                ra, rv = resolve_ptr(self.prog, pa, self.f.unit), resolve_ptr(self.prog, pv, self.f.unit)
+                if strip_casts(ra[0]) is strip_casts(rv[0]) and ra[1] == rv[1] and ra[2] and rv[2]:
+                    # the same field of the same object, re-loaded: valid as long as nothing in between writes it
+                    def between(i):
+                        fa = (i.bb is a.bb and i.pos > a.pos) or (i.bb is not a.bb and self.f.reaches(a.bb, i.bb))
+                        tb = (i.bb is v.bb and i.pos < v.pos) or (i.bb is not v.bb and self.f.reaches(i.bb, v.bb))
+                        return fa and tb
+                    if not any(i.op == "store" and self._same_field(i.ops[1], pv) and between(i) for i in self.f.insts()):
+                        return True
         return False
+
+    def _same_field(self, p, q):
+        rp, rq = resolve_ptr(self.prog, p, self.f.unit), resolve_ptr(self.prog, q, self.f.unit)
+        return strip_casts(rp[0]) is strip_casts(rq[0]) and rp[1] == rq[1]
+
+    def cond_known(self, c, bb):
+        """truth of condition c at bb as far as a dominating branch on the same comparison (same predicate, same operands
+        modulo re-loads of one location) tells"""
+        def same(a, b):
+            a, b = _unext(a), _unext(b)
+            if a is b:
+                return True
+            if a.is_const and b.is_const:
+                return (a.is_int and b.is_int and a.uval == b.uval) or (a.is_null and b.is_null)
+            if a.is_inst and b.is_inst and a.op == "load" and b.op == "load":
+                pa, pb = strip_casts(a.ops[0]), strip_casts(b.ops[0])
+                if pa is pb:
+                    return True
+                ra, rb = resolve_ptr(self.prog, pa, self.f.unit), resolve_ptr(self.prog, pb, self.f.unit)
+                return strip_casts(ra[0]) is strip_casts(rb[0]) and ra[1] == rb[1] and ra[2] and rb[2]
+            return False
+        if not (c.is_inst and c.op == "icmp"):
+            return None
+        NEG = {"eq": "ne", "ne": "eq", "ult": "uge", "uge": "ult", "ugt": "ule", "ule": "ugt"}
+        for (g, outcome, br) in self.f.guards_at(bb):
+            if not (g.is_inst and g.op == "icmp") or outcome not in (True, False):
+                continue
+            if same(g.ops[0], c.ops[0]) and same(g.ops[1], c.ops[1]):
+                if g.pred == c.pred:
+                    return outcome
+                if NEG.get(g.pred) == c.pred:
+                    return not outcome
+        return None
 
     def nonzero(self, v, bb, depth=0, seen=None):
         seen = seen if seen is not None else set()
         v = _unext(v)
-        if id(v) in seen or depth > 12:
+        if id(v) in seen:
+            return v.is_inst and v.op == "phi"      # round a loop: holds if it holds for every way in (co-induction)
+        if depth > 16:
             return False
         seen = seen | {id(v)}
         if v.is_const:
@@ -53,12 +99,28 @@ class NonZero:
         if self.fact_nonzero(v, bb):
             return True
         if v.op == "select":
+            known = self.cond_known(v.ops[0], bb)
+            if known is True:
+                return self.nonzero(v.ops[1], bb, depth + 1, seen)
+            if known is False:
+                return self.nonzero(v.ops[2], bb, depth + 1, seen)
             return self.nonzero(v.ops[1], bb, depth + 1, seen) and self.nonzero(v.ops[2], bb, depth + 1, seen)
         if v.op == "phi":
             return all(self.nonzero(val, pred, depth + 1, seen) for val, pred in zip(v.ops, v.x["inc"]))
+        if v.op in ("mul", "shl"):
+            # overflow to zero is the business of the SZ_*_OV checks
+            if v.op == "shl":
+                return self.nonzero(v.ops[0], bb, depth + 1, seen)
+            return all(self.nonzero(o, bb, depth + 1, seen) for o in v.ops)
+        if v.op == "extractvalue" and v.ops[0].is_inst and v.ops[0].op == "call" and \
+                (v.ops[0].callee or "").startswith(("llvm.umul.with.overflow", "llvm.smul.with.overflow")):
+            return all(self.nonzero(o, v.bb, depth + 1, seen) for o in v.ops[0].ops)
         if v.op == "load":
             A = strip_casts(v.ops[0])
             if A.is_inst and A.op == "alloca":
+                if ("alloca", id(A)) in seen:
+                    return True         # the local's value round a loop: holds if every definition is non-zero
+                seen = seen | {("alloca", id(A))}
                 defs = []
                 for i in self.f.insts():
                     if i.op == "store" and strip_casts(i.ops[1]) is A:
@@ -123,4 +185,59 @@ def run_progress(chk, prog, rule, unit_filter):
                               "splice / read / skip call it again forever")
         if deleg and not stores:
             chk.ok(rule, "%s:delegates" % f.name, deleg[0], "the size is the one reported by the wrapped stream")
+    return n
+
+
+def run_doubling(chk, prog, rule, unit_filter):
+    """K1-double: a loop whose controlling value only grows by multiplication (n *= 2 until it is large enough) terminates
+    only if that value is non-zero when the loop is entered"""
+    n = 0
+    seenf = set()
+    for f in prog.functions():
+        if f.decl or f.qname in seenf or not unit_filter(f.unit.src):
+            continue
+        seenf.add(f.qname)
+        f.build()
+        for (h, body) in f.loops:
+            for P in h.insts:
+                if P.op != "phi" or P.ty.endswith("*"):
+                    continue
+                inits, steps = [], []
+                for val, pred in zip(P.ops, P.x["inc"]):
+                    (steps if pred in body else inits).append((val, pred))
+                if not steps or not inits:
+                    continue
+                mult = True
+                for (val, pred) in steps:
+                    w = _unext(val)
+                    ok = False
+                    if w.is_inst and w.op in ("mul", "shl") and any(_unext(o) is P for o in w.ops) and any(o.is_const for o in w.ops):
+                        ok = True
+                    if w.is_inst and w.op == "extractvalue" and w.ops[0].is_inst and w.ops[0].op == "call" and \
+                            (w.ops[0].callee or "").startswith("llvm.umul.with.overflow") and any(_unext(o) is P for o in w.ops[0].ops):
+                        ok = True
+                    if not ok:
+                        mult = False
+                if not mult:
+                    continue
+                # the loop's exit must depend on P (otherwise P is not what makes it end)
+                dep = False
+                for b in body:
+                    t = b.term
+                    if t.op == "br" and len(t.x["succ"]) == 2 and any(s_ not in body for s_ in t.x["succ"]):
+                        from .util import backward_slice
+                        if any(x is P for x in backward_slice(t.ops[0], phi_control=False, limit=100)):
+                            dep = True
+                if not dep:
+                    continue
+                n += 1
+                chk.analysed(f)
+                inst = "%s:loop@%d" % (f.name, h.term.line or P.line or 0)
+                NZ = NonZero(prog, f)
+                bad = [(v, p) for (v, p) in inits if not NZ.nonzero(v, p)]
+                if not bad:
+                    chk.ok(rule, inst, P, "the value that is doubled until it is large enough is non-zero when the loop is entered")
+                else:
+                    chk.violation(rule, inst, P, "the loop multiplies '%s' until it is large enough, but that value can be 0 when the loop is "
+                                  "entered: 0 stays 0 (and never overflows), the loop never ends" % (getattr(P, "name", None) or "a size"))
     return n
